@@ -33,7 +33,7 @@ def width(f):
         return f[1]
     if k == "flag":
         return 1
-    if k == "pad":
+    if k in ("pad", "pad1"):
         return f[1]
     if k in ("bw16", "bwbytes"):
         return 16
@@ -75,6 +75,8 @@ def mkfield(f, impl, nm):
         return C.Flag
     if k == "pad":
         return C.Padding(f[1])
+    if k == "pad1":
+        return C.Padding(f[1], pattern=b"\x01")     # reserved bits that are sent as ones
     if k == "bw16":
         return C.Bytewise(C.Int16ul)
     if k == "bwbytes":
@@ -151,7 +153,7 @@ class Oracle:
                 return v
             if k == "flag":
                 return bool(take(1))
-            if k == "pad":
+            if k in ("pad", "pad1"):
                 take(f[1])
                 return None
             if k == "bw16":
@@ -190,6 +192,8 @@ class Oracle:
                 put(1 if v else 0, 1)
             elif k == "pad":
                 put(0, f[1])
+            elif k == "pad1":
+                put((1 << f[1]) - 1, f[1])
             elif k == "bw16":
                 put(int.from_bytes(v.to_bytes(2, "little"), "big"), 16)
             elif k == "bwbytes":
@@ -207,6 +211,24 @@ class Oracle:
         for i, x in enumerate(self.layout):
             enc(x, val["f%d" % i])
         return acc[0].to_bytes(self.total // 8, "big")
+
+
+def truthify(layout, val):
+    """the value with every Flag field given as another truthy / falsy object (a masked integer, a string, None): a flag is one bit"""
+    n = [0]
+
+    def f(fld, v):
+        k = fld[0]
+        if k == "flag":
+            n[0] += 1
+            return [0x10, "yes", 7, [0]][n[0] % 4] if v else [0, "", None, []][n[0] % 4]
+        if k == "struct":
+            return {"f%d" % i: f(x, v["f%d" % i]) for i, x in enumerate(fld[1])}
+        if k == "array":
+            return [f(fld[2], e) for e in v]
+        return v
+    out = {"f%d" % i: f(x, val["f%d" % i]) for i, x in enumerate(layout)}
+    return out, n[0]
 
 
 def boolify(layout, val):
@@ -357,6 +379,20 @@ class LayoutRunner:
                     self.failed = True
                     return
                 ctx.count("builds_with_booleans_for_bits")
+        if self.k % 8 == 5:
+            wt, n = truthify(self.layout, want)
+            if n:
+                try:
+                    built3 = self.d.build(wt, **self.kw)
+                except Exception as e:
+                    ctx.violation("build-raises:%s:truthy-for-flag:%s" % (self.impl, type(e).__name__), "build(%r) raised %s: %s" % (wt, type(e).__name__, e), self.case(data))
+                    self.failed = True
+                    return
+                if built3 != canon and not (self.hasnan and len(built3) == len(canon)):
+                    ctx.violation("build-differs:%s:truthy-for-flag" % self.impl, "build(%r) = %s, oracle = %s" % (wt, built3.hex(), canon.hex()), self.case(data))
+                    self.failed = True
+                    return
+                ctx.count("builds_with_truthy_objects_for_flags")
 
     def kind_of_diff(self, got, want):
         """which field kind differs first (mechanism key)"""
@@ -408,7 +444,7 @@ def decorate(rng, parts, mode):
             if w == 1 and r < 0.3:
                 out.append(["flag"])
             elif r < 0.12:
-                out.append(["pad", w])
+                out.append(["pad" if rng.random() < 0.6 else "pad1", w])
             elif w % 8 == 0 and r < 0.5:
                 out.append(["int", w, rng.random() < 0.5, True])
             elif w == 16 and r < 0.7:
